@@ -34,6 +34,34 @@ CLAIMED = {
         "contract-based deductive verification: AST symbolic execution of the real functions to VCs, discharged by z3/cvc5",
         "DESIGN.md §4 C10",
     ),
+    "C09": (
+        "proof",
+        "Day/week addition (incl. the +-300-day fast path), year addition, month addition and units_between are verified once against the calendar interface contract with a symbolic calendar; _add_months/_set_year/_months_between are verified per calculator class (15 regular calculators + Badi, symbolic year/month/day/amount, incl. the do-not-refactor negative branch); Period.between laws (only requested units, lands between start and end, reaches end with days/nanoseconds, one sign, maximal single unit) for dates (all 15 unit subsets), times (all 63 subsets) and year-months; LocalDateTime +/- Period.",
+        "Trusted: A1-A3. Not yet under contract: Hebrew _add_months/_months_between (loops / float first guess), Period.between for LocalDateTime, Period.normalize/to_duration. Interface axiom AX-MB (months_between lands between) is proved per class for the regular calculators only.",
+        "contract-based deductive verification: symbolic execution to VCs against the calendar interface contract; modular use of proved field contracts",
+        "DESIGN.md §4 C09",
+    ),
+    "C16": (
+        "proof",
+        "All week-year rules at once (min_days 1..7, first day 1..7, regular/irregular as symbolic parameters) over a symbolic calendar: week-year start follows the rule's definition, regular week-years tile the day line, (week-year, week, weekday) converts back to the date, week number within the week count and advancing every 7 days; ISO rule == ISO 8601 (lemma); next/previous weekday; n-th weekday of month. Stand-in: ISO rule vs isocalendar.",
+        "Trusted: A1-A3, CAL axioms (per-class obligations of C01). Dates in the first/last two years of a calendar's range are excluded from the round-trip lemma (data dependent range ends; Badi year 0 is a known finding). DateAdjusters and LocalDateTime.next/previous not yet under contract.",
+        "contract-based deductive verification: symbolic rule parameters and symbolic calendar, modular method contracts + round-trip lemma",
+        "DESIGN.md §4 C16",
+    ),
+    "C18": (
+        "proof",
+        "DateInterval (construction, len, membership, inclusion, intersection, union, iteration with loop invariant and per-yield obligation) against the set {dse(start)..dse(end)} over a symbolic calendar; Interval against the half-open instant set incl. unbounded ends.",
+        "Trusted: A1-A3, CAL axioms. YearMonth.to_date_interval not yet under contract.",
+        "contract-based deductive verification: symbolic execution to VCs against abstract views (sets of day numbers / instants)",
+        "DESIGN.md §4 C18",
+    ),
+    "C19": (
+        "other",
+        "FakeClock: every method is verified against the model (now, auto_advance) with post-state contracts, frame conditions, ghost lock state (every operation completes: no re-acquisition of the non-reentrant lock) and lock discipline (state only touched while the lock is held). Interleavings are NOT explored: under assumption A9 (mutual exclusion) each method is one critical section, so concurrent histories are equivalent to sequential ones; that is an argument from an assumption, not a proof about schedules.",
+        "Trusted: A1-A3, A9 (threading.Lock semantics), A12. ZonedClock and SystemClock are not yet under contract. The schedule quantifier of the property is outside this family (no thread model).",
+        "contract-based deductive verification of the sequential model with ghost lock state; schedules by stated assumption only",
+        "DESIGN.md §4 C19",
+    ),
 }
 
 NOT_YET = {}
